@@ -86,6 +86,9 @@ class OctKey(Key):
             cls.check_required_fields(raw)
             key = cls(options=options)
             key._dict_data = raw
+        elif isinstance(raw, Key):
+            # a key object of another key type
+            raise ValueError("Invalid data for importing key")
         else:
             raw_key = to_bytes(raw)
 
